@@ -121,6 +121,12 @@ func (m *model) resolvable(rt int, sp modSpec) bool {
 		es := m.specs[m.insts[h].spec]
 		return (!tab || es.ExpTab) && (!glob || es.ExpGlob)
 	}
+	if sp.Tab1From != "" {
+		h, ok := m.names[rt][sp.Tab1From]
+		if !ok || !m.specs[m.insts[h].spec].ExpTab1 {
+			return false
+		}
+	}
 	return need(sp.ImpFrom, false, false) && need(sp.TabFrom, true, false) && need(sp.GlobFrom, false, true) && need(sp.MemFrom, false, false)
 }
 
@@ -149,7 +155,26 @@ func (m *model) addInst(rt, spec, cm int, name string) {
 	if sp.ExpTab {
 		in.tab0.involved = append(in.tab0.involved, h)
 	}
-	in.tab1 = &mTable{slots: [tableSlots]int{-1, -1, -1}}
+	if sp.Tab1From != "" {
+		in.tab1 = m.insts[m.names[rt][sp.Tab1From]].tab1
+		in.tab1.involved = append(in.tab1.involved, h)
+	} else {
+		in.tab1 = &mTable{slots: [tableSlots]int{-1, -1, -1}}
+	}
+	if sp.ExpTab1 {
+		in.tab1.involved = append(in.tab1.involved, h)
+	}
+	for _, x := range append(append([]int{}, in.tab0.involved...), in.tab1.involved...) {
+		// some owner exports two tables and each has an importer of its own
+		o := m.insts[x]
+		if o.ok && len(o.tab0.involved) > 1 && len(o.tab1.involved) > 1 && o.tab0 != o.tab1 && m.specs[o.spec].ExpTab && m.specs[o.spec].ExpTab1 && o.tab0.involved[0] == x {
+			m.labels["owner-of-two-exported-tables-each-with-importers"] = true
+		}
+	}
+	if sp.Elem1 >= 1 && sp.Elem1 <= tableSlots {
+		in.tab1.slots[sp.Elem1-1] = h
+		in.tab1.traps[sp.Elem1-1] = false
+	}
 	if sp.GlobFrom != "" {
 		// the imported global may itself be a re-export: what the compiler keeps reachable is
 		// the instance that DEFINES the global (GlobalInstance.Me)
@@ -485,7 +510,11 @@ func (m *model) observe() {
 			}
 		}
 		for _, o := range in.tab1.slots {
-			reach(o, "private-table")
+			if len(in.tab1.involved) > 0 {
+				reach(o, "second-shared-table")
+			} else {
+				reach(o, "private-table")
+			}
 		}
 		reach(in.glob.owner, "global")
 		if in.cm >= 0 {
@@ -557,6 +586,9 @@ func (m *model) closureOf(roots []int) map[int]bool {
 		for _, x := range in.tab0.involved {
 			add(x)
 		}
+		for _, x := range in.tab1.involved {
+			add(x)
+		}
 	}
 	return ret
 }
@@ -589,7 +621,7 @@ func (m *model) escaped() (bool, string) {
 			}
 		}
 		for _, o := range in.tab1.slots {
-			if s := chk(o, "the private table"); s != "" {
+			if s := chk(o, "table 1"); s != "" {
 				return true, s
 			}
 		}
@@ -629,10 +661,11 @@ func genSpecs(t *rapid.T) []modSpec {
 			// spec 0 imports nothing from guests (something can always be instantiated) and
 			// exports everything (the others can import from it)
 			s.ExpTab, s.ExpGlob = true, true
+			s.ExpTab1 = rapid.IntRange(0, 2).Draw(t, "exp_tab1") > 0 // an owner of two exported tables
 		} else {
 			// all imports of one module come from one name; which kinds is drawn
 			from := rapid.SampledFrom([]string{"a", "a", "b"}).Draw(t, "from")
-			kinds := rapid.SampledFrom([]int{0, 1, 1, 2, 2, 3, 3, 4, 5, 6, 7, 8, 9, 9, 9, 11, 13, 15}).Draw(t, "import_kinds")
+			kinds := rapid.SampledFrom([]int{0, 1, 1, 2, 2, 3, 3, 4, 5, 6, 7, 8, 9, 9, 9, 11, 13, 15, 16, 16, 16, 16, 17, 18, 24, 19, 2, 2}).Draw(t, "import_kinds")
 			if kinds&1 != 0 {
 				s.ImpFrom = from
 			}
@@ -645,12 +678,19 @@ func genSpecs(t *rapid.T) []modSpec {
 			if kinds&8 != 0 {
 				s.MemFrom = from
 			}
+			if kinds&16 != 0 {
+				s.Tab1From = from
+			}
+			s.ExpTab1 = rapid.IntRange(0, 3).Draw(t, "exp_tab1") == 0
 			s.ExpTab = rapid.IntRange(0, 3).Draw(t, "exp_tab") > 0
 			s.ExpGlob = rapid.IntRange(0, 2).Draw(t, "exp_glob") > 0
 		}
 		if rapid.Bool().Draw(t, "has_elem") {
 			s.Elem = rapid.IntRange(0, tableSlots-1).Draw(t, "elem")
 			s.ElemImp = s.ImpFrom != "" && rapid.Bool().Draw(t, "elem_imp")
+		}
+		if rapid.IntRange(0, 2).Draw(t, "has_elem1") == 0 || (s.Tab1From != "" && rapid.Bool().Draw(t, "has_elem1_imported")) {
+			s.Elem1 = 1 + rapid.IntRange(0, tableSlots-1).Draw(t, "elem1")
 		}
 		if s.GlobFrom == "" {
 			s.GlobInit = rapid.SampledFrom([]int{0, 0, 1, 2}).Draw(t, "glob_init")
@@ -659,6 +699,28 @@ func genSpecs(t *rapid.T) []modSpec {
 			}
 		}
 		specs[i] = s
+	}
+	if n >= 3 && rapid.IntRange(0, 3).Draw(t, "two_table_family") == 0 {
+		// a family that is otherwise rare: an owner exporting two tables, one importer per table,
+		// each placing a function of its own in the imported table when it is instantiated
+		refrom := func(s *modSpec) {
+			for _, f := range []*string{&s.ImpFrom, &s.TabFrom, &s.GlobFrom, &s.MemFrom, &s.Tab1From} {
+				if *f != "" {
+					*f = "a"
+				}
+			}
+		}
+		specs[0].ExpTab1 = true
+		specs[1].TabFrom, specs[1].Tab1From = "a", ""
+		specs[2].Tab1From, specs[2].TabFrom = "a", ""
+		refrom(&specs[1])
+		refrom(&specs[2])
+		if specs[1].Elem < 0 {
+			specs[1].Elem = rapid.IntRange(0, tableSlots-1).Draw(t, "family_elem")
+		}
+		if specs[2].Elem1 == 0 {
+			specs[2].Elem1 = 1 + rapid.IntRange(0, tableSlots-1).Draw(t, "family_elem1")
+		}
 	}
 	return specs
 }
@@ -669,6 +731,7 @@ func genConfig(t *rapid.T) config {
 	c.Cache = rapid.IntRange(0, 1).Draw(t, "cache") == 0
 	c.Term = rapid.IntRange(0, 3).Draw(t, "term") == 0
 	c.CachedFns = rapid.IntRange(0, 3).Draw(t, "cached_fns") == 0
+	c.Listen = rapid.IntRange(0, 3).Draw(t, "listen") == 0
 	return c
 }
 
@@ -679,6 +742,11 @@ func (m *model) keeps(y, x int) bool {
 		return true
 	}
 	for _, z := range in.tab0.involved {
+		if z == x {
+			return true
+		}
+	}
+	for _, z := range in.tab1.involved {
 		if z == x {
 			return true
 		}
@@ -764,7 +832,7 @@ func genStep(t *rapid.T, m *model, excluded *int) (s step, ok bool) {
 	}
 	wanted := map[string]bool{} // names some spec imports from
 	for _, sp := range m.specs {
-		wanted[sp.ImpFrom], wanted[sp.TabFrom], wanted[sp.GlobFrom], wanted[sp.MemFrom] = true, true, true, true
+		wanted[sp.ImpFrom], wanted[sp.TabFrom], wanted[sp.GlobFrom], wanted[sp.MemFrom], wanted[sp.Tab1From] = true, true, true, true, true
 	}
 	// instOpts: instantiations expected to succeed; goneOpts: from a CompiledModule whose
 	// engine cache entry was deleted by closing a sibling made from the same bytes.
@@ -806,8 +874,15 @@ func genStep(t *rapid.T, m *model, excluded *int) (s step, ok bool) {
 			w *= 8
 		}
 		sp := m.specs[o.spec]
-		if sp.ImpFrom != "" || sp.TabFrom != "" || sp.GlobFrom != "" || sp.MemFrom != "" {
+		if sp.ImpFrom != "" || sp.TabFrom != "" || sp.GlobFrom != "" || sp.MemFrom != "" || sp.Tab1From != "" {
 			w *= 3
+		}
+		// an importer of one table of an owner whose OTHER exported table already has an importer
+		if h, ok := m.names[o.rt][sp.TabFrom]; ok && sp.TabFrom != "" && len(m.insts[h].tab1.involved) > 1 {
+			w *= 5
+		}
+		if h, ok := m.names[o.rt][sp.Tab1From]; ok && sp.Tab1From != "" && len(m.insts[h].tab0.involved) > 1 {
+			w *= 5
 		}
 		return w
 	}
